@@ -16,8 +16,8 @@ m = {
     },
     "engines": [
         {"name": "E1 finite-domain enumerator", "path": "qmc/run.py", "serves_properties": [c for c in props if CHECKS.get(c, {}).get("engine") == "E1"], "kind_free_text": "complete Cartesian products of small alphabets evaluated on the real code against an independent reference model, in crash-attributing worker processes"},
-        {"name": "E2 explicit-state explorer", "path": "qmc/explore.py", "serves_properties": [c for c in props if CHECKS.get(c, {}).get("engine") == "E2"], "kind_free_text": "breadth-first search over operation programs / life-cycle histories; states rebuilt by replay on fresh real objects; canonical-key de-duplication; invariant + reference agreement on every transition"},
-        {"name": "E3 fault enumerator", "path": "qmc/explore.py", "serves_properties": [c for c in props if CHECKS.get(c, {}).get("engine") == "E3"], "kind_free_text": "E2 plus an injected exception at every enumerated crash point, iterated by number of faults"},
+        {"name": "E2 explicit-state explorer", "path": "qmc/texp.py (tensor programs, C05/C06) and qmc/lifecycle.py (life-cycle histories, C09-C12)", "serves_properties": [c for c in props if CHECKS.get(c, {}).get("engine") == "E2"], "kind_free_text": "breadth-first search over operation programs / life-cycle histories; states rebuilt by replay on fresh real objects; canonical-key de-duplication; invariant + reference agreement on every transition"},
+        {"name": "E3 fault enumerator", "path": "qmc/lifecycle.py + qmc/checks/c13.py", "serves_properties": [c for c in props if CHECKS.get(c, {}).get("engine") == "E3"], "kind_free_text": "E2 plus an injected exception at every enumerated crash point, iterated by number of faults"},
     ],
     "checks": [],
     "not_applicable": [],
